@@ -231,5 +231,7 @@ G12_mesh = [
     r('Mesh2D._quad_to_triangles', [TLst(P2)], name='Mesh2D__quad_to_triangles'),
     r('Mesh2D.join_meshes', [TLst(O('Mesh2D'))], name='Mesh2D_join_meshes'),
     r('Mesh3D.join_meshes', [TLst(O('Mesh3D'))], name='Mesh3D_join_meshes'),
+    r('Mesh3D.remove_faces_only', [O('Mesh3D'), TLst(B)], name='Mesh3D_remove_faces_only'),
+    r('Mesh2D.remove_faces_only', [O('Mesh2D'), TLst(B)], name='Mesh2D_remove_faces_only'),
 ]
 LAYERS.append(('G12_mesh', G12_mesh))
